@@ -346,15 +346,21 @@ class MatcherAtoms:
             return None
         # predicate calls -> inline callee body
         if isinstance(e, ast.Call) and self.depth < 6:
-            callees = [c for c in self.prog.resolve_call(self.f, e, self.env, fanout=False) if isinstance(c, Func)]
+            pre = getattr(e, "_pstat_callees", None)
+            callees = pre if pre is not None else [c for c in self.prog.resolve_call(self.f, e, self.env, fanout=False) if isinstance(c, Func)]
             if len(callees) == 1:
                 callee = callees[0]
                 args, problems = bind_args(callee, e)
                 if not problems:
                     recv = e.func.value if isinstance(e.func, ast.Attribute) else None
+                    # calls by plain name inside the caller-side argument expressions belong to
+                    # the caller's module; those of the callee's body to the callee's module
+                    for side in list(args.values()) + ([recv] if recv is not None else []):
+                        self._pin_calls(side, self.f)
                     # a Metric member delegates to its _Metric value: treat both alike
                     ex = inline_expr_function(callee, args, recv)
                     if ex is not None:
+                        self._pin_calls(ex, callee)
                         return self._sub(ex, callee)
             return None
         return None
@@ -418,6 +424,18 @@ class MatcherAtoms:
         # a label that is in the label map has also been put into every collection that tracks it
         return all((not a[b]) or a[k] for b, k in self.extra_feasible)
 
+    def _pin_calls(self, ex: ast.AST, ctx_func: Func):
+        """Resolve calls of plain names in `ex` in the module of ctx_func once, so that the
+        expression can later be compiled in another function's context."""
+        for c in ast.walk(ex):
+            if isinstance(c, ast.Call) and isinstance(c.func, ast.Name) and not hasattr(c, "_pstat_callees"):
+                try:
+                    r = [x for x in self.prog.resolve_call(ctx_func, c, fanout=False) if isinstance(x, Func)]
+                except Exception:
+                    r = []
+                if r:
+                    c._pstat_callees = r
+
     def _sub(self, ex: ast.expr, callee: Optional[Func] = None):
         self.depth += 1
         try:
@@ -443,9 +461,36 @@ def matcher_loop(prog: Program, f: Func) -> tuple[ast.For, str, str, str]:
     """The candidate loop of a matcher: `for score, (ref, pred) in <pairs>` where <pairs> comes
     from _calc_matching_metric_of_overlapping_labels.  Returns (loop, score, ref, pred)."""
     target = prog.func("_functionals:_calc_matching_metric_of_overlapping_labels")
+
+    def yields_target(g: Func, call: ast.Call, depth: int = 0) -> bool:
+        """The call evaluates to the candidate list: it calls the candidate function, or a
+        wrapper all of whose returns hand back such a call's result."""
+        callees = prog.resolve_call(g, call)
+        if target in callees:
+            return True
+        if depth >= 3:
+            return False
+        for h in callees:
+            if not isinstance(h, Func) or h is g:
+                continue
+            rets = [r for r in walk_no_nested(h.node) if isinstance(r, ast.Return)]
+            if not rets:
+                continue
+            good = True
+            for r in rets:
+                v = r.value
+                if isinstance(v, ast.Name):
+                    d = single_def(h, v.id)
+                    v = d if d is not None else v
+                if not (isinstance(v, ast.Call) and yields_target(h, v, depth + 1)):
+                    good = False
+            if good:
+                return True
+        return False
+
     src_vars = set()
     for n in walk_no_nested(f.node):
-        if isinstance(n, ast.Assign) and isinstance(n.value, ast.Call) and target in prog.resolve_call(f, n.value):
+        if isinstance(n, ast.Assign) and isinstance(n.value, ast.Call) and yields_target(f, n.value):
             for t in n.targets:
                 if isinstance(t, ast.Name):
                     src_vars.add(t.id)
@@ -453,7 +498,7 @@ def matcher_loop(prog: Program, f: Func) -> tuple[ast.For, str, str, str]:
     for n in walk_no_nested(f.node):
         if isinstance(n, ast.For):
             it = n.iter
-            ok = (isinstance(it, ast.Name) and it.id in src_vars) or (isinstance(it, ast.Call) and target in prog.resolve_call(f, it))
+            ok = (isinstance(it, ast.Name) and it.id in src_vars) or (isinstance(it, ast.Call) and yields_target(f, it))
             if ok:
                 loops.append(n)
     if len(loops) > 1:
